@@ -76,6 +76,11 @@ def _run_suite(prop, suite, stats):
         stats["evaluations"] += 1
         if i is None:
             div.append((c, "the harness died on this case")); continue
+        if len(i) == 3 and i[0] == 3 and i[2] >= 128:
+            # the implementation (inside the harness process) was killed by a signal on this very input: a concrete failing input
+            div.append((c, "the process crashed on this case"))
+            hits.append((c, None, "the implementation crashed (signal %d: memory fault / abort) while running this case" % (i[2] - 128)))
+            continue
         if suite.compare and c.coq is not None:
             d = core.first_divergence(i, m)
             if d is not None:
